@@ -352,6 +352,80 @@ def registry(R, ctx):
              "listed=%s parsed=%s get_name=%s" % (nme in listed, nme in parsed, nme in got))
 
 
+SKIP_PREDICATES = {
+    # predicate -> what the deserialisation default must be for the skipped value to come back
+    "Option::is_none": "none", "Vec::is_empty": "empty", "HashSet::is_empty": "empty", "HashMap::is_empty": "empty", "String::is_empty": "empty",
+    "std::ops::Not::not": "false", "core::ops::Not::not": "false", "Not::not": "false",
+}
+
+
+def skip_default(R, ctx):
+    rid = "C19.skipdefault"
+    lib = ctx.lib
+    import re
+    R.rule(rid, "for every serde field with `skip_serializing_if = P`, the value P skips is exactly the value deserialisation restores when the key is "
+                "absent: is_none <-> Option, is_empty <-> `default` (empty container), Not::not <-> a default that is false, a local predicate "
+                "`is_default_x` <-> the local `default = \"..x\"` function it compares with; otherwise a non-default value vanishes on round-trip")
+    n = 0
+    for p, ad in sorted(lib.adts.items()):
+        for v in ad["variants"]:
+            for f in v["fields"]:
+                a = " ".join(f.get("attrs", []))
+                m = re.search(r'skip_serializing_if\s*=\s*"([^"]+)"', a)
+                if not m:
+                    continue
+                n += 1
+                pred = m.group(1)
+                dm = re.search(r'default\s*=\s*"([^"]+)"', a)
+                has_plain_default = bool(re.search(r'(^|[\s(,])default\s*([,)]|$)', a))
+                key = "%s.%s" % (p.split("::")[-1], f["name"])
+                where = ctx.adt_where(p)
+                want = SKIP_PREDICATES.get(pred)
+                if want == "none":
+                    ok = f["tys"].startswith("core::option::Option")
+                    R.ob(rid, key, ok, where, "skips None; field type %s" % f["tys"][:40])
+                elif want == "empty":
+                    ok = (has_plain_default and not dm) or (dm is not None and _default_fn_class(lib, dm.group(1)) == "empty")
+                    R.ob(rid, key, ok, where, "skips an empty container; default attribute: %s" % ("default" if has_plain_default else dm.group(1) if dm else "MISSING (absent key is an error or another value)"))
+                elif want == "false":
+                    cls = _default_fn_class(lib, dm.group(1)) if dm else ("false" if has_plain_default else None)
+                    R.ob(rid, key, cls == "false", where, "skips `false`, but an absent key is read back as %s" % (cls or "an error"))
+                else:
+                    # local predicate: must call/compare with the local default function
+                    fn = _find_local_fn(lib, pred)
+                    dfn = dm.group(1) if dm else None
+                    ok = False
+                    if fn is not None and dfn:
+                        names = {c.get("fname") for c in thir.fn_refs(fn)}
+                        consts_ = {x.get("def", "").split("::")[-1] for x in thir.walk(thir.body_of(fn)) if x.get("k") == "Const"}
+                        d = _find_local_fn(lib, dfn)
+                        dconsts = {x.get("def", "").split("::")[-1] for x in thir.walk(thir.body_of(d)) if x.get("k") == "Const"} if d is not None else set()
+                        ok = dfn.split("::")[-1] in names or bool(consts_ & dconsts)
+                    R.ob(rid, key, ok, where, "custom predicate `%s` vs default `%s`: %s" % (pred, dfn, "compare the same constant" if ok else "not shown to agree"))
+    R.require(rid, "floor", n >= 8, "", "%d skip_serializing_if fields (floor 8)" % n)
+
+
+def _find_local_fn(lib, name):
+    short = name.split("::")[-1]
+    c = [f for p, f in lib.fns.items() if p.split("::")[-1] == short and thir.body_of(f)]
+    return c[0] if len(c) >= 1 else None
+
+
+def _default_fn_class(lib, name):
+    f = _find_local_fn(lib, name)
+    if f is None:
+        return None
+    from .. import tables
+    cls = tables.classify_body(thir.body_of(f))
+    if cls in ("true", "false"):
+        return cls
+    b = thir.body_of(f)
+    calls_ = [c.get("fname") for c in thir.walk(b) if c.get("k") == "Call"]
+    if calls_ and all(c in ("new", "default", "with_capacity") for c in calls_):
+        return "empty"
+    return "other"
+
+
 def run(R, ctx):
     R.explanation = (
         "Reader/writer agreement of the configuration layer decided on typed THIR: strictness of every configure(), serde attributes, "
@@ -365,3 +439,4 @@ def run(R, ctx):
     filters(R, ctx)
     collide(R, ctx)
     registry(R, ctx)
+    skip_default(R, ctx)
